@@ -60,7 +60,7 @@ def gen_cases(r, tier):
     cnt = [0]
     quick = tier == "quick"
 
-    def add(src, kind, mode=None, extra_inc=None, units=()):
+    def add(src, kind, mode=None, extra_inc=None, units=(), opt="", fname=None, ns=None):
         if isinstance(src, str):
             b = src.encode("latin1", "replace")
         else:
@@ -75,7 +75,9 @@ def gen_cases(r, tier):
             txt = b.decode("latin1")
         except Exception:
             txt = ""
-        cases.append("%s %s %s%s%s" % (cid, mode, hexs(b), inc_fields(txt, extra_inc), "".join(" U" + hexs(u.encode("latin1")) for u in units)))
+        extra = (" O" + opt if opt else "") + (" N" + (fname.encode("latin1").hex() if fname else "") if fname is not None else "") + \
+                (" P" + hexs(ns.encode("latin1")) if ns is not None else "")
+        cases.append("%s %s %s%s%s%s" % (cid, mode, hexs(b), inc_fields(txt, extra_inc), "".join(" U" + hexs(u.encode("latin1")) for u in units), extra))
         meta[cid] = kind
 
     for src in K.RULES:                                    # corpus itself: must compile cleanly
@@ -192,6 +194,45 @@ def gen_cases(r, tier):
     for c in CONDS:
         add('import "pe" rule se1 { strings: $a = "x" $b = "y" condition: %s }' % c, "semantic-error")
         add('import "pe" rule se0 { condition: true } rule se1 { strings: $a = "x" $b = "y" condition: ( %s ) and $a and $b } rule se3 { condition: se0 }' % c, "semantic-error")
+    # ---- compiler switches: strict escapes (unknown escape = error instead of warning), includes disabled, file-system include callback, atom quality table
+    for src in K.RULES:
+        add(src, "switch:strict-escape", "S", opt="s")
+    for src in K.RULES[::4]:
+        add(src, "switch:atom-quality-table", None, opt="q")
+        add(src, "switch:includes-disabled", None, opt="n")
+    ESC = ["\\g", "\\y", "\\q", "\\e", "\\%", "\\:", "\\ ", "\\_", "\\Z"]
+    ERRS = ["(ef", "+*", "a{5,2}", "[z-a]", "[", ")", "a{2,1}", "(?", "*x", "a{99999999}", "x**", "[a", "(", "a{2,1}b", "\\"]
+    for e in ESC:
+        for x in ERRS + ["", "cd"]:
+            for o in ("s", ""):
+                add('rule se { strings: $a = /ab%scd%s/ condition: $a }' % (e, x), "warning-then-error", "S", opt=o)
+                add('rule se { condition: "abc" matches /%s+%s/ }' % (e, x), "warning-then-error", "S", opt=o)
+                add('rule se { strings: $a = /[%s]a%s/ $b = "x%sy" condition: $a or $b }' % (e, x, e), "warning-then-error", "S", opt=o)
+        add('rule se { strings: $a = "ab%scd" $b = { 01 [2-1] 02 } condition: $a and $b }' % e, "warning-then-error", "S", opt="s")
+        add('rule se { strings: $a = "ab%scd" condition: $a and }' % e, "warning-then-error", "S", opt="s")
+    for x in K.RE_BAD:
+        add('rule x { strings: $a = %s condition: $a }' % x, "switch:strict-escape", "S", opt="s")
+        add('rule x { condition: "abc" matches %s }' % x, "switch:strict-escape", "S", opt="s")
+    for src in ['include "inc1" rule t { condition: inc_rule }', 'include "missing" rule t { condition: true }', 'rule a { condition: true } include "inc1"', 'include "']:
+        add(src, "switch:includes-disabled", None, opt="n")
+    # ---- fixed-size buffers: include path = directory of the including file + include name (1024-byte buffer), namespaces, file names, through every add_* entry point
+    for k in (0, 1, 100, 500, 1000, 1017, 1022, 1023, 1024, 1030, 2000, 4096):
+        for total in (1020, 1022, 1023, 1024, 1025, 1026, 1100, 2048, 5000, 8000):
+            m = total - k - 1
+            if m < 1 or m > 8100:
+                continue
+            fn = ("d" * k + "/f.yar") if k else "f.yar"
+            for mode in ("F", "D"):
+                add('include "%s" rule t { condition: true }' % ("n" * m), "include-path-length", mode, opt="d", fname=fn)
+    for m in (1, 1000, 1022, 1023, 1024, 1025, 4000, 8100):
+        for mode in ("S", "B", "F", "D"):
+            add('include "%s" rule t { condition: true }' % ("n" * m), "include-path-length", mode, opt="d", fname="" if mode in ("F", "D") else None)
+            add('include "/%s" rule t { condition: true }' % ("n" * m), "include-path-length", mode, opt="d", fname=("sub/dir/f.yar" if mode in ("F", "D") else None))
+    for k in (1, 100, 1023, 1024, 1025, 5000, 70000):
+        for mode in ("S", "B", "F", "D"):
+            add('rule t { condition: true } rule u { condition: t }', "long-namespace", mode, ns="N" * k)
+            add('rule t { condition: ', "long-namespace", mode, ns="N" * k, fname=("F" * k if mode in ("F", "D") else None))
+            add('include "inc1" rule t { condition: inc_rule and nosuch }', "long-file-name", mode, fname=("F" * k + "/g.yar" if mode in ("F", "D") else None))
     # oversized tokens around YR_LEX_BUF_SIZE (8192) and far beyond
     L = 8192
     for n in [L - 3, L - 2, L - 1, L, L + 1, L + 2, 2 * L, 70000] + ([] if quick else [1 << 20]):
